@@ -8,6 +8,7 @@ import (
 	"net/url"
 	"path"
 	"strings"
+	"sync/atomic"
 	"time"
 
 	"github.com/AdguardTeam/AdGuardDNS/internal/agdcache"
@@ -91,6 +92,10 @@ type cacheItem struct {
 	// host is the cached normalized hostname for later cache key collision
 	// checks.
 	host string
+
+	// gen is the generation of the hashes that the result has been computed
+	// with.  See [Filter.gen].
+	gen uint64
 }
 
 // Filter is a filter that matches hosts by their hashes based on a hash-prefix
@@ -103,9 +108,16 @@ type Filter struct {
 	errColl  errcoll.Interface
 	metrics  internal.Metrics
 	resCache agdcache.Interface[internal.CacheKey, *cacheItem]
-	id       internal.ID
-	repIP    netip.Addr
-	repFQDN  string
+
+	// gen is the generation of the hashes.  It is incremented on every refresh
+	// between the resetting of the hashes and the clearing of the result cache,
+	// so that a result computed with the previous hashes, which may be put into
+	// the cache after it has been cleared, is never used.
+	gen *atomic.Uint64
+
+	id      internal.ID
+	repIP   netip.Addr
+	repFQDN string
 }
 
 // IDPrefix is a common prefix for cache IDs, logging, and refreshes of
@@ -133,6 +145,7 @@ func NewFilter(c *FilterConfig) (f *Filter, err error) {
 		errColl:  c.ErrColl,
 		metrics:  c.Metrics,
 		resCache: resCache,
+		gen:      &atomic.Uint64{},
 		id:       id,
 	}
 
@@ -176,8 +189,11 @@ func (f *Filter) FilterRequest(
 ) (r internal.Result, err error) {
 	host, qt, cl := req.Host, req.QType, req.QClass
 
+	// Load the generation before any use of the hashes.
+	gen := f.gen.Load()
+
 	cacheKey := internal.NewCacheKey(host, qt, cl, false)
-	item, ok := f.itemFromCache(ctx, cacheKey, host)
+	item, ok := f.itemFromCache(ctx, cacheKey, host, gen)
 	f.updateCacheLookupsMetrics(ok)
 	if ok {
 		// Don't wrap the error, because it's informative enough as is.
@@ -205,6 +221,7 @@ func (f *Filter) FilterRequest(
 		f.resCache.Set(cacheKey, &cacheItem{
 			res:  nil,
 			host: host,
+			gen:  gen,
 		})
 
 		return nil, nil
@@ -216,7 +233,7 @@ func (f *Filter) FilterRequest(
 		return nil, err
 	}
 
-	f.setInCache(cacheKey, r, host)
+	f.setInCache(cacheKey, r, host, gen)
 
 	f.updateCacheSizeMetrics(f.resCache.Len())
 
@@ -230,9 +247,10 @@ func (f *Filter) itemFromCache(
 	ctx context.Context,
 	key internal.CacheKey,
 	host string,
+	gen uint64,
 ) (item *cacheItem, ok bool) {
 	item, ok = f.resCache.Get(key)
-	if !ok {
+	if !ok || item.gen != gen {
 		return nil, false
 	}
 
@@ -356,17 +374,19 @@ func (f *Filter) respForFamily(
 // [*internal.ResultModifiedResponse].
 //
 // See AGDNS-359.
-func (f *Filter) setInCache(k internal.CacheKey, r internal.Result, host string) {
+func (f *Filter) setInCache(k internal.CacheKey, r internal.Result, host string, gen uint64) {
 	switch r := r.(type) {
 	case *internal.ResultModifiedRequest:
 		f.resCache.Set(k, &cacheItem{
 			res:  r.Clone(f.cloner),
 			host: host,
+			gen:  gen,
 		})
 	case *internal.ResultModifiedResponse:
 		f.resCache.Set(k, &cacheItem{
 			res:  r.Clone(f.cloner),
 			host: host,
+			gen:  gen,
 		})
 	default:
 		panic(fmt.Errorf("hashprefix: unexpected type for result: %T(%[1]v)", r))
@@ -458,6 +478,7 @@ func (f *Filter) refresh(ctx context.Context, acceptStale bool) (err error) {
 		return fmt.Errorf("%s: resetting: %w", f.id, err)
 	}
 
+	f.gen.Add(1)
 	f.resCache.Clear()
 
 	f.logger.InfoContext(ctx, "reset hosts", "num", count)
